@@ -274,3 +274,95 @@ func VerifHarness_C19_failed_tx() {
 	verifrt.Assert(r, "C19.stop.run-loop-has-returned-when-stop-returns")
 	verifrt.Reach("C19.failed-tx.done")
 }
+
+// VerifHarness_C19_stop_after_loss: phases tied to what has happened rather than to the clock - the
+// node gets in sync; a relevant unconfirmed transaction is announced and delivered to the handlers
+// (no block follows, so it is only in memory); the trusted connection is lost; Stop is requested k
+// ticks later (while the node tears the connection down, waits to retry, or reconnects).  Stop
+// returns in bounded time and a new node on the same storage still tracks that transaction.
+func VerifHarness_C19_stop_after_loss() {
+	verifrt.Goroutines()
+	ctx := context.Background()
+	w, store, cfg := c19NewWorld(ctx)
+	if w.ln != nil {
+		defer w.ln.Close()
+	}
+	w.newNode(cfg, store)
+	node := w.node
+	w.connectPeer()
+	runDone, stopDone := false, false
+	var mu sync.Mutex
+	go func() {
+		node.Run(ctx)
+		mu.Lock()
+		runDone = true
+		mu.Unlock()
+	}()
+	for tick := 0; tick < 40 && !node.state.IsReady(); tick++ {
+		w.tick(100 * time.Millisecond)
+	}
+	verifrt.Assert(node.state.IsReady(), "C19.stop-after-loss.in-sync")
+	unconf := vkTx(9, []int{5}, true)
+	w.announceTx(unconf)
+	delivered := func() bool {
+		for _, e := range w.rec.events {
+			if e.kind == "tx" && e.txid == *unconf.TxHash() {
+				return true
+			}
+		}
+		return false
+	}
+	for tick := 0; tick < 30 && !delivered(); tick++ {
+		w.tick(100 * time.Millisecond)
+	}
+	verifrt.Assert(delivered(), "C19.stop-after-loss.tx-delivered")
+	w.link.hangUp()
+	w.connectPeer() // the peer is there again for the node's next attempt
+	// (at least one tick: a Stop in the very instant of the loss races with the read loop noticing
+	// it, which the native replay cannot reproduce reliably; C19_stop covers that instant)
+	for k := 1 + verifrt.Choose("stop-ticks-after-the-loss", 7); k > 0; k-- {
+		w.tick(100 * time.Millisecond)
+	}
+	stopRequested := verifrt.NowNanos()
+	go func() {
+		node.Stop(ctx)
+		mu.Lock()
+		stopDone = true
+		mu.Unlock()
+	}()
+	returnedAfter := int64(-1)
+	for tick := 0; tick < 80; tick++ {
+		w.tick(100 * time.Millisecond)
+		mu.Lock()
+		s := stopDone
+		mu.Unlock()
+		if s {
+			returnedAfter = verifrt.NowNanos() - stopRequested
+			break
+		}
+	}
+	mu.Lock()
+	r := runDone
+	mu.Unlock()
+	verifrt.Sig("stop-after-loss", "stop")
+	verifrt.Assert(returnedAfter >= 0 && returnedAfter <= int64(5*time.Second), "C19.stop.returns-within-bounded-time")
+	verifrt.Sig("stop-after-loss", "run")
+	verifrt.Assert(r, "C19.stop.run-loop-has-returned-when-stop-returns")
+	k2, lerr := vkNewNode(ctx, store)
+	verifrt.Sig("stop-after-loss", "load")
+	verifrt.Assert(lerr == nil, "C19.stop.saved-state-loads")
+	if lerr != nil {
+		return
+	}
+	theirs, _ := k2.node.txs.GetUnconfirmed(ctx)
+	k2.node.txs.ReleaseUnconfirmed(ctx)
+	tracked := false
+	for _, id := range theirs {
+		if id == *unconf.TxHash() {
+			tracked = true
+		}
+	}
+	verifrt.Sig("stop-after-loss", "unconfirmed-saved")
+	verifrt.Assert(tracked, "C19.stop.unconfirmed-transactions-are-saved")
+	verifrt.Reach("C19.stop-after-loss.done")
+}
